@@ -4,6 +4,8 @@ use crate::ctx::Run;
 
 pub mod c01;
 pub mod c02;
+pub mod c04;
+pub mod c05;
 pub mod c08;
 pub mod c09;
 pub mod c10;
@@ -17,6 +19,8 @@ pub fn dispatch(run: &mut Run, extra: &[String]) -> bool {
     match run.prop.as_str() {
         "C01" => c01::run(run),
         "C02" => c02::run(run),
+        "C04" => c04::run(run),
+        "C05" => c05::run(run),
         "C08" => c08::run(run),
         "C09" => c09::run(run),
         "C10" => c10::run(run),
